@@ -6,6 +6,7 @@ pub mod c06;
 pub mod c15;
 pub mod c16;
 pub mod c17;
+pub mod c18;
 pub mod c19;
 pub mod c20;
 pub mod consist_lab;
@@ -33,6 +34,7 @@ pub fn get(id: &str) -> Option<Box<dyn Prop>> {
         "C19" => Some(Box::new(c19::C19)),
         "C20" => Some(Box::new(c20::C20)),
         "C17" => Some(Box::new(c17::C17)),
+        "C18" => Some(Box::new(c18::C18)),
         _ => None,
     }
 }
